@@ -216,12 +216,17 @@ def anyOut : List F → List (F × F) → Bool
   | x :: xs, b :: bs => outOfBounds b x || anyOut xs bs
   | _, _ => false
 
-/-- `Minimizer.minimize`; `.error` = the `ValueError` "did not converge". `func` is the function value
-of the objective (first element of what the objective returns). -/
-def wrapper (attempt : Nat → Attempt F) (maxReps : Nat) (bounds : List (F × F)) (func : List F → F) :
+/-- `np.any(np.isnan(xmin))`: a value that is not equal to itself (for IEEE doubles exactly NaN; never for
+a lawful `==`). -/
+def hasNaN [BEq F] (xs : List F) : Bool := xs.any (fun v => !(v == v))
+
+/-- `Minimizer.minimize`; `.error` = the `ValueError`s "did not converge" and "fit values contain NaN".
+`func` is the function value of the objective (first element of what the objective returns). -/
+def wrapper [BEq F] (attempt : Nat → Attempt F) (maxReps : Nat) (bounds : List (F × F)) (func : List F → F) :
     Except String (WrapOut F) :=
   let r := wrapLoop attempt maxReps 0 (attempt 0)
   if !r.1.converged then .error "ValueError:not-converged"
+  else if hasNaN r.1.x then .error "ValueError:nan"
   else if anyOut r.1.x bounds then
     let x' := clipAll r.1.x bounds
     .ok { x := x', f := func x', reps := r.2, reevaluated := true }
@@ -241,7 +246,7 @@ def cobylaConstraints [Sub F] (bounds : List (F × F)) : List (List F → Option
 
 /-- `LLHRatio.maximize`: the objective handed to the minimiser is `-llh`, the reported maximum is
 `-fmin`. -/
-def maximize [Neg F] (attempt : Nat → Attempt F) (maxReps : Nat) (bounds : List (F × F))
+def maximize [BEq F] [Neg F] (attempt : Nat → Attempt F) (maxReps : Nat) (bounds : List (F × F))
     (llh : List F → F) : Except String (F × List F × Nat) :=
   match wrapper attempt maxReps bounds (fun x => -(llh x)) with
   | .error e => .error e
